@@ -621,6 +621,8 @@ class Parser(object):
                              | TYPEOF unary_expr
                              | PLUSPLUS unary_expr
                              | MINUSMINUS unary_expr
+                             | LTPLUSPLUS unary_expr
+                             | LTMINUSMINUS unary_expr
                              | PLUS unary_expr
                              | MINUS unary_expr
                              | BNOT unary_expr
